@@ -68,10 +68,11 @@ B_H2B = ("concrete level vectors per instance (refusal at carry depth 0, 1 (thor
          "the run continues after the refusal: more leaves, close, chains of all accepted leaves")
 def bs_inst(label, **d):
     return {"label": label, "defines": ["%s=%s" % (k, v) for k, v in d.items()]}
-h3_quick = [bs_inst("leaves_n2_MM_mask", MODE=1, NLEAVES=2, MDS="{1,1,0,0,0,0,0,0}", MASK=1),
+h3_quick = [bs_inst("leaves_n1_M_mask", MODE=1, NLEAVES=1, MDS="{1,0,0,0,0,0,0,0}", MASK=1),
             bs_inst("leaves_n2_hM_nomask", MODE=1, NLEAVES=2, MDS="{0,1,0,0,0,0,0,0}", MASK=0),
-            bs_inst("reset_n1", MODE=2, NLEAVES=1, MASK=1)]
-h3_thorough = h3_quick + [bs_inst("leaves_n3_MhM_mask", MODE=1, NLEAVES=3, MDS="{1,0,1,0,0,0,0,0}", MASK=1),
+            bs_inst("reset_n1_state", MODE=2, NLEAVES=1, MASK=1, STATE_ONLY=1)]
+h3_thorough = h3_quick + [bs_inst("leaves_n2_MM_mask", MODE=1, NLEAVES=2, MDS="{1,1,0,0,0,0,0,0}", MASK=1), bs_inst("reset_n1", MODE=2, NLEAVES=1, MASK=1),
+                          bs_inst("leaves_n3_MhM_mask", MODE=1, NLEAVES=3, MDS="{1,0,1,0,0,0,0,0}", MASK=1),
                           bs_inst("leaves_n1_h_mask", MODE=1, NLEAVES=1, MDS="{0,0,0,0,0,0,0,0}", MASK=1),
                           bs_inst("leaves_n4_MMMM_mask", MODE=1, NLEAVES=4, MDS="{1,1,1,1,0,0,0,0}", MASK=1),
                           bs_inst("reset_n2_closed", MODE=2, NLEAVES=2, MASK=1, CLOSE_BEFORE_RESET=1),
